@@ -493,7 +493,10 @@ def run_model_shard(prop: str, shard: Dict[str, Any], rep: Report) -> None:
             rep.env_count(name, "dense_sparse_compared")
             n = len(tr) - 1
             tol = 1e-4 * max(1.0, abs(ret1)) + 1e-5 * n
-            if ended_at != n:
+            if P.has("dense_sparse"):
+                # environments whose two reward functions are documented as *different* objectives (SlidingTilePuzzle)
+                mon.report(tr[-1], P.call("dense_sparse", tr, ret1, ret2, ended_at))
+            elif ended_at != n:
                 mon.report(tr[-1], [f"dense_sparse_same_length: twin reward function ended at {ended_at}, original at {n}"])
             elif not abs(ret1 - ret2) <= tol:
                 mon.report(tr[-1], [f"dense_equals_sparse: return {ret1!r} with {cfg.get('reward', 'default')} reward vs {ret2!r} with {c2['reward']} on the same trajectory"])
